@@ -605,6 +605,13 @@ def c16_cases(seed=0):
               conns=[dict(src="b/tg/v", tgt="a/op/r_in", W=W(3, 2, 0.0), edge=dict(tanh_e, map={"x_pre": "source"})),
                      dict(src="a/op/r", tgt="b/tg/u", W=W(2, 3, 0.0), edge=dict(sinp_e, map={"x_pre": "source"}))])
     out.append(("P8-two-different-coupling-edges", dict(coupling=True), ps))
+    # coupling edges with a UNIFORM weight matrix (all-to-all K/N) and on a 1x1 matrix: still evaluated per (target, source) pair
+    ps = dict(ops=ops, pops={"a": dict(ops=["op"], n=4, params={"op/tau": het(4, 1.0, 3.0), "op/r": het(4, -0.5, 0.5)})},
+              conns=[dict(src="a/op/r", tgt="a/op/r_in", W=[[0.25] * 4 for _ in range(4)], edge=dict(sin_e, map={"x_pre": "source", "x_post": "a/op/r"}))])
+    out.append(("P7e-coupling-edge-uniform-matrix", dict(coupling=True), ps))
+    ps = dict(ops=ops, pops={"a": dict(ops=["op"], n=3, params={"op/tau": het(3, 1.0, 3.0), "op/r": het(3, -0.5, 0.5)})},
+              conns=[dict(src="a/op/r", tgt="a/op/r_in", W=[[1.0] * 3 for _ in range(3)], edge=dict(tanh_e, map={"x_pre": "source"}))])
+    out.append(("P7f-coupling-edge-all-ones-mask", dict(coupling=True), ps))
     # a coupling edge whose operator has TWO algebraic equations (the second uses the first in a product)
     two_eq = dict(name="c2", eqs=[["z", "alg", ["+", V("x_pre"), N(1.0)]], ["s", "alg", ["*", V("z"), N(2.0)]]],
                   vars={"s": ["output", 0.0], "z": ["state", 0.0], "x_pre": ["input", 0.0]})
